@@ -1,4 +1,5 @@
-"""Family `nns`: C10, C11, C12 — spec/NNS.tla, monitor spec/NNSTrace.tla, driver harness/nns."""
+"""Family `nns`: C10, C11, C12 and the extension X03 (registration price) — spec/NNS.tla, monitor spec/NNSTrace.tla,
+driver harness/nns."""
 import os
 
 import vcheck as V
@@ -6,7 +7,7 @@ import vcheck as V
 
 class NNS(V.Family):
     name = "nns"
-    props = ("C10", "C11", "C12")
+    props = ("C10", "C11", "C12", "X03")
     driver_pkg = "nns"
     monitor = ("NNSTrace.tla", "NNSTrace.cfg")
     step_keys = ("act", "S", "via", "n", "o", "m", "x", "ty", "d", "aux")
@@ -18,7 +19,12 @@ class NNS(V.Family):
         "`now >= expiration` in ms coincides with the comparison in units at t = exp-1, exp, exp+1",
         "only well-formed names and record data are used (syntax is C18); the model TLDs t/u stand for ttt/uuu",
         "owners are three single-key users, the committee account and one helper contract with onNEP11Payment "
-        "(harness/contracts/nnsproxy); the registration price is the default (burnt GAS is not modelled)",
+        "(harness/contracts/nnsproxy)",
+        "registration price (extension X03): prices are counted in price units (16 units = 1 GAS, the remainder mod 16 = "
+        "fractions of 10^-8 GAS), so 0, 1, the default (10 GAS), maxRegisterPrice (10 000 GAS) and maxRegisterPrice + 1 are "
+        "exact; a transaction of the driver carries a system fee of at most 5 000 GAS (the ledger's MaxBlockSystemFee is "
+        "9 000 GAS), so a register / renew that has to burn more FAULTs (GasCap of the Spec); the GAS a call consumes "
+        "besides the burnt price is far below 10 GAS and burns within 10 GAS below the cap are not generated",
         "TLC 1.8.0 evaluates the property predicates correctly on the recorded steps",
     ]
     rule = ("one evaluation = one transaction (or one time advance) executed on the real NameService contract, followed by every "
@@ -36,7 +42,7 @@ class NNS(V.Family):
         if r["act"] == "tick":
             return None
         o, p = r["obs"], (prev or r)["obs"]
-        changed = any(o[k] != p[k] for k in ("ns", "rec", "soa", "idx", "supply", "roots"))
+        changed = any(o[k] != p[k] for k in ("ns", "rec", "soa", "idx", "supply", "roots", "price"))
         S = set(r["S"])
         st = p["ns"].get(r["n"])
         if st and st["ex"] and (st["owner"] in S or (st["owner"] == "kc" and r["via"])):
@@ -47,7 +53,12 @@ class NNS(V.Family):
             sc = "cmt"
         else:
             sc = "other" if S else "none"
-        return (r["act"], r["res"], r["ret"], sc, r["n"].count(".") + 1, r["ty"], r["via"], changed)
+        pc = ""    # price class of the steps the price matters for (extension X03)
+        if r["act"] in ("setPrice", "register", "renew"):
+            pc = "zero" if p["price"] == 0 else "usable" if p["price"] <= 80000 else "beyond"
+        if r["act"] == "setPrice":
+            pc += "/neg" if r["x"] < 0 else "/over" if r["x"] > 160000 else "/in"
+        return (r["act"], r["res"], r["ret"], sc, r["n"].count(".") + 1, r["ty"], r["via"], changed, pc)
 
     def extra_coverage(self, trace_all, flags_all):
         return dict(committee_sizes=sorted(set(r["cn"] for r in trace_all if r["act"] == "reset")),
